@@ -318,11 +318,24 @@ def form_rules(index, conv, tabs, rep):
     MIXED = [("percent people fed", "billion people fed", "grams per person per day"),
              ("kcals per person per day", "effective kcals per person per day", "thousand tons"),
              ("billion people fed", "grams per person per day", "percent people fed")]
-    for target in MIXED:
+    # every unit the tables list is also tried as the operand's own unit (its form - total / each month / per month - is read off its name:
+    # 'kcals per person per day' is a total)
+    def bases_of(n, s):
+        if s:
+            return [k[:-len(s)] for k in tabs[n] if k.endswith(s)]
+        return [k for k in tabs[n] if not k.endswith(" each month") and not k.endswith(" per month")]
+    sources = [(base_from, t_) for t_ in MIXED]
+    nmax = max(len(bases_of(n, "")) for n in NUTR)
+    for i in range(nmax):
+        src = tuple(bases_of(n, "")[i % len(bases_of(n, ""))] for n in NUTR)
+        if src != base_from:
+            sources.append((src, MIXED[i % len(MIXED)]))
+    for base_src, target in sources:
+        tag = "" if base_src == base_from else " from " + str(base_src)
         for s in SUFFIXES:
-            units = [b + s for b in base_from]
+            units = [b + s for b in base_src]
             want_units = [t + s for t in target]
-            if not all(want_units[i] in tabs[n] for i, n in enumerate(NUTR)):
+            if not all(want_units[i] in tabs[n] for i, n in enumerate(NUTR)) or not all(units[i] in tabs[n] for i, n in enumerate(NUTR)):
                 continue
             it, selfobj = new_interp(index, conv, {
                 "units": PList(units), "kcals_units": units[0], "fat_units": units[1], "protein_units": units[2],
@@ -332,20 +345,20 @@ def form_rules(index, conv, tabs, rep):
                 a_, k_ = bind_named(fn, list(zip(("to_units_kcals", "to_units_fat", "to_units_protein"), target)))
                 res = it.call_function(fn, a_, k_, selfobj)
             except Abort as e:
-                rep.violation(rule, f"in_units{target}:{s.strip() or 'total'}", f"in_units rejects a supported unit triple ({e.why})", loc=loc(UC, fn))
+                rep.violation(rule, f"in_units{target}{tag}:{s.strip() or 'total'}", f"in_units rejects a supported unit triple ({e.why})", loc=loc(UC, fn))
                 continue
             except (Unsupported, Fork, MonthSplit) as e:
                 raise AnalysisError(f"in_units outside the analysed fragment: {e!r}")
             if not isinstance(res, PDict):
                 raise AnalysisError("in_units does not end in a Food(...) construction")
             got_units = [res.d.get(k) for k in ("kcals_units", "fat_units", "protein_units")]
-            rep.check(got_units == want_units, rule, f"in_units{target}:{s.strip() or 'total'}:labels",
+            rep.check(got_units == want_units, rule, f"in_units{target}{tag}:{s.strip() or 'total'}:labels",
                       f"result labels {got_units} are not the requested units in the operand's form (expected {want_units})", loc=loc(UC, fn))
             for lane, n in enumerate(NUTR):
                 want = lanes[lane] * tabs[n][want_units[lane]] / tabs[n][units[lane]]
                 got = res.d.get(n)
                 ok = isinstance(got, Rat) and got == want
-                rep.check(ok, rule, f"in_units{target}:{s.strip() or 'total'}:{n}-lane",
+                rep.check(ok, rule, f"in_units{target}{tag}:{s.strip() or 'total'}:{n}-lane",
                           f"{n} values are not the operand's {n} values times the {n} conversion to the unit requested for {n} (units of two "
                           "nutrients swapped, or a missing factor)", loc=loc(UC, fn), detail=f"got {got}; want {want}")
     rep.require_min(rule, 70)
